@@ -229,6 +229,7 @@ fn no_cross(_: &Analysis) -> Vec<Violation> {
 pub fn safety_cross(a: &Analysis) -> Vec<Violation> {
     let mut out = oracle::c01(a);
     out.extend(oracle::c12_sentinel(a));
+    out.extend(crate::props::c07::c07(a));
     out
 }
 
@@ -615,6 +616,7 @@ pub fn registry(prop: &str) -> Option<Check> {
             stub,
         },
         "C04" => crate::props::c04::check(),
+        "C07" => crate::props::c07::check(),
         "C12" => crate::props::c12::check(),
         _ => return None,
     })
